@@ -588,9 +588,10 @@ func build(tier string) []explore.Scenario {
 
 func main() {
 	explore.Main(explore.Config{
-		Property:  "C15",
-		Technique: "stateless model checking of the real runtime with a cached kind (probe controller + free cached readers) under a controlled scheduler, reads matched against prefix states of the commit log; explicit-state BFS of the cache handler vs a sorted-map model",
-		Rule:      "runtime: one execution per schedule (bootstrap explored in the race scenario); cache BFS: every operation from every reachable model state; non-trivial = schedules differing from the default / distinct model states",
-		Assume:    []string{"a read may return any complete state between the bootstrap index and the commit-log length at its return", "quiescence is exact"},
+		Property:     "C15",
+		RequireShims: true,
+		Technique:    "stateless model checking of the real runtime with a cached kind (probe controller + free cached readers) under a controlled scheduler, reads matched against prefix states of the commit log; explicit-state BFS of the cache handler vs a sorted-map model",
+		Rule:         "runtime: one execution per schedule (bootstrap explored in the race scenario); cache BFS: every operation from every reachable model state; non-trivial = schedules differing from the default / distinct model states",
+		Assume:       []string{"a read may return any complete state between the bootstrap index and the commit-log length at its return", "quiescence is exact"},
 	}, build)
 }
